@@ -470,4 +470,66 @@ example : runE .bdg bdgI [] [.set [] [1], .set [1] [1], .get [], .del [], .write
 example : runE .bolt refI [] [.set [] [1], .get [], .del [], .write [.set [] [2], .set [2] [2]], .iter none none]
     = [.unit, .val none, .unit, .unit, .kvs [([2], [2])]] := by decide
 
+/-! ## (e) `Seek`, `Domain`, `ValueSize` (coverage round) -/
+
+/-- SEEK (store adapters): after `Seek(k)` a forward iterator delivers exactly the reference iteration of `[k, end)` - every
+delivered key is at or above `k` and below the end bound, in ascending order - and the answer says whether there is any -/
+theorem seek_forward_spec {m : Ref} (hs : Sorted m) (c : Cursor) (hc : c.rev = false) (k : Bound) :
+    (seekStore refI m c k).1.rest = Ref.iter m k c.e ∧
+    (seekStore refI m c k).2 = !(Ref.iter m k c.e).isEmpty ∧
+    (seekStore refI m c k).1.s = k ∧ (seekStore refI m c k).1.e = c.e ∧
+    Sorted (seekStore refI m c k).1.rest ∧ ∀ kv ∈ (seekStore refI m c k).1.rest, inFwd kv.1 k c.e = true := by
+  have h : (seekStore refI m c k).1.rest = Ref.iter m k c.e := by simp [seekStore, hc, refI]
+  refine ⟨h, by simp [seekStore, hc, refI], rfl, rfl, ?_, ?_⟩
+  · rw [h]; exact (Ref.iter_spec hs k c.e).1
+  · rw [h]; intro kv hkv; exact (List.mem_filter.mp hkv).2
+
+theorem seek_reverse_spec (m : Ref) (c : Cursor) (hc : c.rev = true) (k : Bound) :
+    (seekStore refI m c k).1.rest = Ref.riter m k c.e ∧ (seekStore refI m c k).1.s = k := by
+  simp [seekStore, hc, refI]
+
+/-- FULL STATEMENT: `Seek` on an iterator of a PrefixDB view repositions it like `Seek` on the view's reference map -/
+def prefix_seek_statement : Prop :=
+  ∀ (m : Ref) (p : Bytes) (c : Cursor) (k : Bound), p ≠ [] → c.rev = false →
+    (seekView refI m p c k).1.rest = Ref.iter (restrict p m) k c.e
+
+/-- FALSE of the current code (finding prefixdb-seek-no-effect): `prefixIterator.Seek` has a value receiver, the caller's iterator
+is not moved at all: view {01, 03}, a fresh iterator, Seek(03), and the next item is still 01 -/
+theorem prefix_seek_counterexample : ¬ prefix_seek_statement := by
+  intro h
+  have := h [([0x70, 1], [1]), ([0x70, 3], [3])] [0x70]
+    { rest := [([1], [1]), ([3], [3])], s := none, e := none, rev := false } (some [3]) (by decide) rfl
+  revert this
+  decide
+
+/-- PARTIAL: what it does instead - nothing -/
+theorem prefix_seek_partial {σ : Type} (I : DBI σ) (db : σ) (p : Bytes) (c : Cursor) (k : Bound) :
+    (seekView I db p c k).1 = c := rfl
+
+/-- badger: `Seek` with the empty key on a reverse iterator rewinds (finding bdg-seek-empty-reverse), although the constructor
+treats the same start as "nothing at or below it" -/
+theorem bdg_seek_empty_reverse (m : Ref) (e : Bound) :
+    bdgI.seekR m (some []) e = Ref.riter m none e ∧ bdgI.riter m (some []) e = [] := ⟨rfl, rfl⟩
+
+/-- `ValueSize()`: 0 after Reset on every adapter; memBatch counts the bytes of the values (+1 per delete) -/
+theorem valueSize_reset (e : Engine) (sz : Nat) : e.valueSize sz .reset = 0 := rfl
+theorem valueSize_mem (sz n : Nat) : Engine.valueSize .mem sz (.set n) = sz + n ∧ Engine.valueSize .mem sz .del = sz + 1 := ⟨rfl, rfl⟩
+
+/-- FULL STATEMENT (what `libs/trie/database.go` relies on when it flushes at `ValueSize() >= IdealBatchSize`): the counter is at
+least the number of value bytes queued -/
+def valuesize_counts_bytes_statement : Prop :=
+  ∀ (e : Engine) (sz n : Nat), sz + n ≤ e.valueSize sz (.set n)
+
+/-- FALSE (finding valuesize-not-bytes): goleveldb never counts (always 0), bolt and badger count ops -/
+theorem valuesize_counts_bytes_counterexample : ¬ valuesize_counts_bytes_statement := by
+  intro h
+  have := h .ldb 0 1
+  revert this
+  decide
+
+theorem valuesize_counts_bytes_partial (sz n : Nat) : sz + n ≤ Engine.valueSize .mem sz (.set n) := Nat.le_refl _
+
+example : (seekStore refI [([2], [2]), ([4], [4]), ([6], [6])] { rest := [], s := some [3], e := some [7], rev := false } (some [1])).1.rest
+    = [([2], [2]), ([4], [4]), ([6], [6])] := by decide
+
 end Props.C19
